@@ -66,6 +66,11 @@ class C16Stacks:
             tag = -1 if shared else li
             levels = range(len(ctx.stacks)) if shared else [li]
             received = sum(d._problem._n_evals for lv in levels if lv < len(tree.levels) for d in tree.levels[lv])
+            if ctx.prev is not None and ctx.prev.tree is not None:
+                # the wrappers are shared with the first tree built from this configuration: its demes' requests count too
+                pt = ctx.prev.tree
+                received += sum(d._problem._n_evals for lv in levels if lv < len(pt.levels) for d in pt.levels[lv])
+                ctx.cov["C16.real_stack_checks_on_a_reused_configuration"] += 1
             ys = [e[2] for e in ctx.log if e[0] == tag]
             ctx.cov["C16.real_stack_checks"] += 1
             for w in reversed(objs[1:]):
@@ -108,6 +113,9 @@ def make_case(seed, idx, tier):
             for lv in d["levels"]:
                 lv["stack"] = st if d["shared"] else list(st)
         d["kind"] = "c16run"
+        if (idx // 50) % 3 == 2 and d["gsc"]["k"] != "precision":
+            d["reuse"] = True
+            d["entry"] = "tree"
         return d
     depth = [0, 1, 2, 2, 3, 3, 4, 4][idx % 8]
     stack = []
@@ -118,7 +126,7 @@ def make_case(seed, idx, tier):
     while len(stack) < depth:
         stack.append(rng.choice(KINDS))
     maximize = bool((idx // 3) % 2)
-    opt = rng.choice([0.0, 1.0, -2.5])
+    opt = rng.choice([0.0, 1.0, -2.5, 100.0, -3000.0])
     wr = []
     ncalls = rng.randint(5, 200 if tier == "thorough" else 80)
     for k in stack:
@@ -134,7 +142,12 @@ def make_case(seed, idx, tier):
     vals = []
     for i in range(ncalls):
         far = opt + rng.choice([-1, 1]) * rng.uniform(0.5, 10.0)
+        eps0 = max([w["eps"] for w in wr if w["k"] == "prec"] or [1e-3])
         near = opt + rng.choice([-1, 1, 0]) * rng.choice([0.0, 1e-4, 0.05, 0.1])
+        if rng.random() < 0.35:
+            # just outside the precision: must NOT count as a hit (absolute tolerance, whatever the size of the optimum)
+            near = opt + rng.choice([-1, 1]) * (eps0 * (1 + 1e-9) + rng.choice([0.0, 4e-6, 9e-6]) * abs(opt))
+            far = near if rng.random() < 0.5 else far
         if mode == "never":
             v = far
         elif mode == "once":
@@ -154,8 +167,9 @@ def run_case(desc):
         from .. import harness
         from ..props import run_result
 
-        ctx = harness.run_case(desc, [C16Stacks()])
-        return run_result(ctx, desc)
+        from ..props import run_desc
+
+        return run_desc(desc, lambda: [C16Stacks()])
     from pyhms.core.problem import (
         EvalCountingProblem,
         EvalCutoffProblem,
